@@ -65,6 +65,8 @@ func n09GenCluster(t *rapid.T) *n09Case {
 	c.Ring = rapid.SampledFrom([]int{128, 256, 512, 4096, 65536}).Draw(t, "ring")
 	c.RingMax = c.Ring * rapid.SampledFrom([]int{1, 2, 4}).Draw(t, "ringmaxf")
 	c.Followers = rapid.SampledFrom([]int{1, 1, 2}).Draw(t, "followers")
+	// aof_file_buffer_size of the nodes: mostly the default (64 records), sometimes 1, 2 or 16 records
+	c.FileBuf = rapid.SampledFrom([]int{0, 0, 0, 0, 64, 64, 128, 1024}).Draw(t, "filebuf")
 	keys := rapid.IntRange(1, 4).Draw(t, "keys")
 	nops := rapid.IntRange(6, 48).Draw(t, "nops")
 	joined := make([]bool, c.Followers)
@@ -98,7 +100,37 @@ func n09GenCluster(t *rapid.T) *n09Case {
 		}
 		firstJoin = -1
 	}
-	if sc := rapid.IntRange(0, 99).Draw(t, "scenario"); sc >= 30 && sc < 58 && firstJoin >= 0 {
+	if sc := rapid.IntRange(0, 99).Draw(t, "scenario"); sc >= 8 && sc < 28 && firstJoin >= 0 {
+		// the connection dies right behind a burst that fills the follower's file buffer a whole number of times: the
+		// follower is in step, its log mutex is held while 1..4 buffers' worth of records (sometimes one more) arrive,
+		// the connection is cut, the log append goes on; reconnect (resume by id), check; once or twice
+		c.Ring, c.RingMax = 65536, 262144 // the position the follower resumes from stays in the ring
+		c.FileBuf = rapid.SampledFrom([]int{64, 128, 128, 1024, 1024, 4096}).Draw(t, "cutFilebuf")
+		per := c.FileBuf / 64
+		if !joined[0] {
+			c.Ops = append(c.Ops, n09Op{K: "join", F: 0})
+			joined[0] = true
+		}
+		for j, n := 0, rapid.IntRange(1, 2).Draw(t, "burstCuts"); j < n; j++ {
+			k := rapid.IntRange(1, 4).Draw(t, "buffers")
+			for k > 1 && k*per > 64 {
+				k-- // everything must fit the follower's append queue (64 records): nothing of the burst is appended early
+			}
+			nrec := k * per
+			if rapid.IntRange(0, 5).Draw(t, "oneMore") == 0 {
+				nrec++
+			}
+			c.Ops = append(c.Ops, n09Op{K: "sync"}, n09Op{K: "fburst", F: 0, N: nrec, Cut: true})
+			if rapid.Bool().Draw(t, "moreAfterCut") {
+				c.Ops = append(c.Ops, n09GenLock(t, keys))
+			}
+		}
+		c.Ops = append(c.Ops, n09Op{K: "sync"})
+		if rapid.IntRange(0, 3).Draw(t, "restartFollowerAfterCut") == 0 {
+			c.Ops = append(c.Ops, n09Op{K: "stop", F: 0}, n09GenLock(t, keys), n09Op{K: "join", F: 0}, n09Op{K: "sync"})
+		}
+		firstJoin = -1
+	} else if sc >= 30 && sc < 58 && firstJoin >= 0 {
 		// a follower whose log append falls far behind a burst of the leader: joined and in step, then 300..600 records
 		// while its log mutex is held, a check, and (mostly) a restart of that follower from its own directory
 		c.Ring, c.RingMax = 65536, 262144 // 1024 records: the burst stays in the ring
@@ -261,6 +293,9 @@ func n09ClusterClasses(info n09Info) []string {
 	add(info.bigValues > 0, "value larger than the sender's batch buffer (or at its boundary)")
 	add(info.holds > 0, "burst sent while the leader's socket write was held")
 	add(info.followerBursts > 0, "burst of 300..600 records while the follower's log append was held")
+	add(info.burstCuts > 0, "connection cut right behind a burst, before the follower's log append went on")
+	add(info.burstCutsExact > 0, "... the burst was a whole number of file buffers")
+	add(info.smallFileBuf, "aof_file_buffer_size of 1, 2 or 16 records")
 	add(info.shortLived > 0 && info.pauses > 0, "value-carrying holds expired before a log file was read (join / follower restart)")
 	add(info.staleJoins > 0, "rejoin with stale directory")
 	add(info.wipeJoins > 0, "rejoin with emptied directory")
